@@ -1,6 +1,8 @@
 // C08 correspondence probe: drives the real util::rb_tree::{container,chain} of /repo's current tree with the
 // op lines that the Lean model driver (iprmodel c08) also reads, and prints the same observation lines.
 // Lines starting with '@' are implementation-only assertions (parent links, pointer identity).
+// `pdump` prints size() and the pre-order shape in which every node also names the key of the node its parent()
+// field points to ("/" for null): the pointer-level model (lean/IprModel/RBLinked.lean) prints the same line.
 #include <ipr/utility>
 #include <cstdio>
 #include <functional>
@@ -52,11 +54,12 @@ struct Tree {
    virtual std::string insert(const Key&) = 0;
    virtual std::string find(const Key&) = 0;
    virtual std::string dump(bool& links_ok) = 0;
+   virtual std::string pdump() = 0;
    virtual std::string stat() = 0;
 };
 
 template<class N, class Show>
-static void dump_rec(N* n, N* parent, std::string& out, bool& links_ok, Show show, int& nodes, int depth, int& height)
+static void dump_rec(N* n, N* parent, std::string& out, bool& links_ok, Show show, int& nodes, int depth, int& height, bool with_parent = false)
 {
    if (n == nullptr) { out += '.'; return; }
    ++nodes;
@@ -65,10 +68,11 @@ static void dump_rec(N* n, N* parent, std::string& out, bool& links_ok, Show sho
    out += '(';
    out += n->color == rb::Color::Red ? 'R' : 'B';
    out += show(n);
+   if (with_parent) { out += '^'; out += n->parent() == nullptr ? std::string("/") : show(n->parent()); }
    out += ' ';
-   dump_rec(n->left(), n, out, links_ok, show, nodes, depth + 1, height);
+   dump_rec(n->left(), n, out, links_ok, show, nodes, depth + 1, height, with_parent);
    out += ' ';
-   dump_rec(n->right(), n, out, links_ok, show, nodes, depth + 1, height);
+   dump_rec(n->right(), n, out, links_ok, show, nodes, depth + 1, height, with_parent);
    out += ')';
 }
 
@@ -104,6 +108,12 @@ struct Own final : Tree, rb::container<T> {
                [this](rb::node<T>* n) { return show(n->data); }, nodes, 0, height);
       return out;
    }
+   std::string pdump() override {
+      std::string out; int nodes = 0, height = 0; bool links_ok = true;
+      dump_rec(this->root, static_cast<rb::node<T>*>(nullptr), out, links_ok,
+               [this](rb::node<T>* n) { return show(n->data); }, nodes, 0, height, true);
+      return "n=" + std::to_string(this->size()) + " " + out;
+   }
    std::string stat() override {
       std::string out; int nodes = 0, height = 0; bool links_ok = true;
       dump_rec(this->root, static_cast<rb::node<T>*>(nullptr), out, links_ok,
@@ -133,6 +143,11 @@ struct ChainTree final : Tree, rb::chain<CNode> {
       std::string out; int nodes = 0, height = 0;
       dump_rec(this->root, static_cast<CNode*>(nullptr), out, links_ok, [](CNode* n) { return show_key(n->key); }, nodes, 0, height);
       return out;
+   }
+   std::string pdump() override {
+      std::string out; int nodes = 0, height = 0; bool links_ok = true;
+      dump_rec(this->root, static_cast<CNode*>(nullptr), out, links_ok, [](CNode* n) { return show_key(n->key); }, nodes, 0, height, true);
+      return "n=" + std::to_string(this->size()) + " " + out;
    }
    std::string stat() override {
       std::string out; int nodes = 0, height = 0; bool links_ok = true;
@@ -197,6 +212,7 @@ int main()
       else if (op == "ins") std::cout << t->insert(parse_key(a)) << '\n';
       else if (op == "find") std::cout << t->find(parse_key(a)) << '\n';
       else if (op == "dump") { bool ok = true; std::cout << t->dump(ok) << "\n@links=" << (ok ? 1 : 0) << '\n'; }
+      else if (op == "pdump") std::cout << t->pdump() << '\n';
       else if (op == "stat") std::cout << t->stat() << '\n';
       else std::cout << "bad-op\n";
    }
